@@ -3,6 +3,7 @@ package main
 // C06 — inline text / moves() hoisting; C09 — text emission; C11 — AutoVar.
 
 import (
+	"regexp"
 	"go/token"
 	"fmt"
 	"go/types"
@@ -65,6 +66,9 @@ func (c *Ctx) isSuccessRet(fn *ssa.Function, r *ssa.Return) bool {
 	return hasLit(c.mustLits(fn, r.Block()), "+("+c.term(fn, last)+" == nil)")
 }
 
+var tokenTypeLitRe = regexp.MustCompile(`^[+-]\(\$0\.(cur|peek\d?)Token\.Type == "[^"]*"\)$`)
+var errLitRe = regexp.MustCompile(`^[+-]\(.*(#\d+|err\w*) (==|!=) nil\)$`)
+
 func c06a(c *Ctx) {
 	fn := c.Fn("parser.Parser.parseCommandStatement")
 	if fn == nil {
@@ -126,6 +130,29 @@ func c06a(c *Ctx) {
 			}
 			key := "inline-arm[" + arm + "]"
 			pos := c.W.Pos(ap.Pos())
+			// the arm is taken for every token of its kind: what distinguishes it from the rest of
+			// the loop body is the kind of the current token and nothing else (a further test — on
+			// the literal's length, say — sends some strings down the plain-argument arm: they
+			// are not hoisted, and go through constant substitution)
+			if h := loopHeaders(fn)[ap.Block()]; h != nil {
+				base := map[string]bool{}
+				for _, sc := range h.Succs {
+					if loopBody(h)[sc] {
+						for _, l := range c.mustLits(fn, sc) {
+							base[verRe.ReplaceAllString(l, "")] = true
+						}
+					}
+				}
+				var extra []string
+				for _, l := range c.mustLits(fn, ap.Block()) {
+					l = verRe.ReplaceAllString(l, "")
+					if base[l] || tokenTypeLitRe.MatchString(l) || errLitRe.MatchString(l) {
+						continue
+					}
+					extra = append(extra, l)
+				}
+				c.Check(len(extra) == 0, key+"/taken-for-every-token-of-its-kind", pos, "the arm is chosen by the kind of the current token alone", fmt.Sprintf("the %s arm is taken only under the further condition(s) %v: the other %s arguments are handled as plain arguments (not hoisted, constant-substituted)", arm, extra, arm))
+			}
 			f := c.valueFields(fn, ev, ap)
 			if f == nil {
 				c.Unk(key, pos, "cannot read the fields of the record "+pretty(c.term(fn, ev)))
